@@ -1119,6 +1119,27 @@ func main() {
 		}
 		emit(out, next("z"), "mem", false, rg, ops)
 	}
+	// maps of the shapes dag-json reserves ({"/": string}, {"/": {"bytes": string}}) are ordinary data for
+	// json, cbor and dag-cbor: stored and loaded back as the maps they are, through every load function
+	for _, codec := range []uint64{lib.LkJson, lib.LkCbor, lib.LkDagCbor} {
+		p := lib.LkProto{Version: 1, Codec: codec, MhType: 0x12, MhLen: -1}
+		var ops []*op
+		for _, v := range []*lib.Val{
+			lib.Map(lib.Entry{K: "/", V: lib.Map(lib.Entry{K: "bytes", V: lib.Str("AP8")})}),
+			lib.Map(lib.Entry{K: "/", V: lib.Str("bafyreigdyrzt5sfp7udm7hu76uh7y26nf3efuylqabf3oclgtqy55fbzdi")}),
+			lib.Map(lib.Entry{K: "/", V: lib.Map(lib.Entry{K: "bytes", V: lib.Str("aGVsbG8")})}, lib.Entry{K: "x", V: lib.Int(1)}),
+			lib.List(lib.Map(lib.Entry{K: "/", V: lib.Map(lib.Entry{K: "bytes", V: lib.Str("")})}), lib.Map(lib.Entry{K: "/", V: lib.Str("x")})),
+		} {
+			ops = append(ops, &op{kind: 'C', proto: p, holder: "basic", val: v}, &op{kind: 'S', proto: p, holder: "basic", val: v})
+		}
+		_, _, ls := runHistory("mem", false, G, ops)
+		for _, l := range uniq(ls) {
+			for _, f := range "lfpr" {
+				ops = append(ops, &op{kind: 'G', form: byte(f), link: l})
+			}
+		}
+		emit(out, next("j"), "mem", false, G, ops)
+	}
 	// LARGE blocks: one store-then-load round trip per size (1 / 2 / 4 MiB, each -1 / exact / +1; the
 	// thorough tier adds 8 and 16 MiB for raw) and codec: raw, and dag-cbor holding a bytes node of
 	// that size (modelled through tables: impl 7100).  Byte strings travel under names (lib/link_big.go).
